@@ -381,13 +381,13 @@ type BCase struct {
 func runBatch(c BCase) error {
 	ap, _ := flv.NewAudioPackager()
 	vp, _ := flv.NewVideoPackager()
-	var atags, vtags [][]byte
+	var atags, asnap, vtags, vsnap [][]byte
 	for _, a := range c.Audio {
 		b, err := ap.Encode(a.frame())
 		if err != nil {
 			return err
 		}
-		atags = append(atags, b)
+		atags, asnap = append(atags, b), append(asnap, append([]byte(nil), b...))
 	}
 	for _, v := range c.Video {
 		fr := flv.NewVideoFrame()
@@ -396,28 +396,49 @@ func runBatch(c BCase) error {
 		if err != nil {
 			return err
 		}
-		vtags = append(vtags, b)
+		vtags, vsnap = append(vtags, b), append(vsnap, append([]byte(nil), b...))
 	}
-	for i, a := range c.Audio {
-		fresh, _ := flv.NewAudioPackager()
-		if w, _ := fresh.Encode(a.frame()); !bytes.Equal(atags[i], w) {
-			return fmt.Errorf("audio tag %d of %d encoded by one packager changed after later Encode calls: %x, a fresh packager gives %x", i, len(atags), head(atags[i]), head(w))
+	// a tag handed to the caller stays what it was, whatever is encoded afterwards (by any packager)
+	other, _ := flv.NewAudioPackager()
+	other.Encode(&flv.AudioFrame{SoundFormat: flv.AudioCodecOpus, Trait: 0x0e, SoundRate: 48, AudioLevel: 0x1234, Raw: []byte{9, 9, 9, 9, 9, 9, 9, 9}})
+	for i := range atags {
+		if !bytes.Equal(atags[i], asnap[i]) {
+			return fmt.Errorf("audio tag %d of %d changed after later Encode calls: %x, was %x", i, len(atags), head(atags[i]), head(asnap[i]))
 		}
+	}
+	for i := range vtags {
+		if !bytes.Equal(vtags[i], vsnap[i]) {
+			return fmt.Errorf("video tag %d of %d changed after later Encode calls: %x, was %x", i, len(vtags), head(vtags[i]), head(vsnap[i]))
+		}
+	}
+	// decode every tag with the same packagers, keep the frames, compare afterwards: a frame handed
+	// to the caller stays what it was, and carries nothing over from the tags decoded before it
+	var afr []*flv.AudioFrame
+	var vfr []*flv.VideoFrame
+	for i := range atags {
 		f, err := ap.Decode(atags[i])
 		if err != nil {
 			return fmt.Errorf("audio tag %d: decode: %v", i, err)
 		}
-		if uint8(f.SoundFormat) != a.Format || uint8(f.SoundRate) != a.Rate || uint8(f.Trait) != a.Trait || f.AudioLevel != a.Level || !bytes.Equal(f.Raw, a.Raw) {
-			return fmt.Errorf("audio tag %d of %d decodes to another frame after the packager encoded later frames", i, len(atags))
-		}
+		afr = append(afr, f)
 	}
-	for i, v := range c.Video {
+	for i := range vtags {
 		f, err := vp.Decode(vtags[i])
 		if err != nil {
 			return fmt.Errorf("video tag %d: decode: %v", i, err)
 		}
+		vfr = append(vfr, f)
+	}
+	for i, a := range c.Audio {
+		f := afr[i]
+		if uint8(f.SoundFormat) != a.Format || uint8(f.SoundRate) != a.Rate || uint8(f.Trait) != a.Trait || f.AudioLevel != a.Level || !bytes.Equal(f.Raw, a.Raw) {
+			return fmt.Errorf("audio tag %d of %d decoded on a reused packager: frame {fmt %d rate %d trait %d level %d raw %x} differs from the frame encoded %+v", i, len(atags), f.SoundFormat, f.SoundRate, f.Trait, f.AudioLevel, head(f.Raw), a)
+		}
+	}
+	for i, v := range c.Video {
+		f := vfr[i]
 		if uint8(f.CodecID) != v.Codec || uint8(f.FrameType) != v.FType || uint8(f.Trait) != v.Trait || f.CTS != v.CTS || !bytes.Equal(f.Raw, v.Raw) {
-			return fmt.Errorf("video tag %d of %d decodes to another frame after the packager encoded later frames", i, len(vtags))
+			return fmt.Errorf("video tag %d of %d decoded on a reused packager: frame {codec %d type %d trait %d cts %d raw %x} differs from the frame encoded %+v", i, len(vtags), f.CodecID, f.FrameType, f.Trait, f.CTS, head(f.Raw), v)
 		}
 	}
 	return nil
@@ -426,7 +447,7 @@ func runBatch(c BCase) error {
 var recBatch = ev.New(prop, "packager-reuse", "rapid-generated batches: one audio and one video packager each encode 2-6 frames (AAC/Opus/other; AVC/HEVC/other) before any tag is decoded; every tag must keep its bytes and decode to its own frame; all non-trivial")
 
 func genAF(t *rapid.T) AF {
-	a := AF{Format: rapid.SampledFrom([]uint8{10, 13, 13, 2, 0}).Draw(t, "format"), Size: uint8(rapid.IntRange(0, 1).Draw(t, "size")), Type: uint8(rapid.IntRange(0, 1).Draw(t, "type")),
+	a := AF{Format: rapid.SampledFrom([]uint8{10, 13, 13, 13, 2, 0}).Draw(t, "format"), Size: uint8(rapid.IntRange(0, 1).Draw(t, "size")), Type: uint8(rapid.IntRange(0, 1).Draw(t, "type")),
 		Raw: rapid.SliceOfN(rapid.Byte(), 1, 30).Draw(t, "raw")}
 	switch a.Format {
 	case 10:
